@@ -109,6 +109,8 @@ type genTree struct {
 	lim      int
 	strNUL   bool
 	hanFan   bool
+	huge     bool   // this tree has keys sharing more than 64 KiB
+	longStr  []byte // compound: a long shared head of the string field
 }
 
 var smallAlphabet = []byte{0x00, 0x01, 'a', 'b', 0x7F, 0x80, 0xFF}
@@ -116,7 +118,7 @@ var nulFreeAlphabet = []byte{0x01, 'a', 'b', 0x7F, 0x80, 0xFF}
 
 var collAtoms = []string{
 	"a", "A", "b", "B", "c", "z", "Z", "e", "\u00e9", "\u00e8", "e\u0301", "E", "\u00c9", "o", "\u00f6", "O", "\u00d6", "u", "\u00fc", "\u00df", "ss", "n", "\u00f1", "ch", "ll", "l", "\u00e5", "\u00e4",
-	"0", "1", "2", "9", "10", "12", "007", " ", "-", "_", ".", "中", "文", "日", "本", "か", "カ", "한", "글", "ก", "ข", "𝒜", "😀", "ａ", "Ａ",
+	"0", "1", "2", "9", "10", "12", "007", " ", "-", "_", ".", "\u00ad", "\u200b", "中", "文", "日", "本", "か", "カ", "한", "글", "ก", "ข", "𝒜", "😀", "ａ", "Ａ",
 }
 
 func (g *genTree) remember(k []byte) {
@@ -393,6 +395,9 @@ func (g *genTree) newNumKey(r *RNG) []byte {
 				if g.strNUL {
 					ab = smallAlphabet
 				}
+				if g.longStr != nil && r.Chance(4, 5) {
+					out = append(out, g.longStr...)
+				}
 				out = append(out, g.alphaBytes(r, r.Intn(5), ab)...)
 				break
 			}
@@ -440,6 +445,21 @@ func (g *genTree) presentKey(r *RNG) ([]byte, bool) {
 
 // absentKey tries to produce a key that is not stored, preferring derived ones.
 func (g *genTree) absentKey(r *RNG, fanHeavy bool) []byte {
+	if g.kt.Kind == "float" && r.Chance(1, 6) {
+		// the other zero, or the neighbouring bit pattern, of a stored key
+		if pk, ok := g.presentKey(r); ok {
+			u := u64of(pk)
+			w := fieldBits(g.kt.T, false)
+			v := u ^ (1 << uint(w-1)) // flip the sign: +0 <-> -0, x <-> -x
+			if r.Chance(1, 3) {
+				v = u ^ 1
+			}
+			k := u64bytes(normField(g.kt.T, false, v))
+			if _, ok := g.m.Get(k); !ok {
+				return k
+			}
+		}
+	}
 	for try := 0; try < 6; try++ {
 		var k []byte
 		switch {
@@ -642,6 +662,10 @@ func newGenTree(r *RNG, kt KeyType, val string, lim int) *genTree {
 		if r.Chance(1, 60) {
 			L = r.Range(900, 5000) // very long keys: beyond page-sized internal buffers
 		}
+		if r.Chance(1, 250) {
+			L = r.Range(65400, 70000) // shared prefixes beyond 64 KiB: 16-bit lengths and depths wrap here
+			g.huge = true
+		}
 		if L < 0 {
 			L = 0
 		}
@@ -660,7 +684,7 @@ func newGenTree(r *RNG, kt KeyType, val string, lim int) *genTree {
 			if len(run) > 28 && L < 40 {
 				run = run[:28]
 			}
-			if len(run) > 5200 {
+			if len(run) > 5200 && !g.huge {
 				run = run[:5200]
 			}
 		}
@@ -676,6 +700,15 @@ func newGenTree(r *RNG, kt KeyType, val string, lim int) *genTree {
 	nb := 1
 	if kt.Kind == "compound" {
 		nb = len(kt.Schema)
+		if len(kt.Schema) > 0 && kt.Schema[len(kt.Schema)-1] == "str" {
+			switch {
+			case r.Chance(1, 250):
+				g.longStr = bytesOf(r, r.Range(65400, 68000))
+				g.huge = true
+			case r.Chance(1, 20):
+				g.longStr = bytesOf(r, r.Range(8, 40))
+			}
+		}
 	}
 	for i := 0; i < nb; i++ {
 		g.bases = append(g.bases, r.U64())
@@ -687,7 +720,15 @@ func newGenTree(r *RNG, kt KeyType, val string, lim int) *genTree {
 		for j := 0; j < n; j++ {
 			p = append(p, pick(r, collAtoms)...)
 		}
-		if kt.Kind == "collation" && r.Chance(1, 40) {
+		if kt.Kind == "collation" && r.Chance(1, 300) {
+			// sort keys beyond 64 KiB (about five sort-key bytes per letter)
+			n := r.Range(13200, 15000)
+			p = p[:0]
+			for len(p) < n {
+				p = append(p, byte('a'+r.Intn(3)))
+			}
+			g.huge = true
+		} else if kt.Kind == "collation" && r.Chance(1, 40) {
 			// a very long shared prefix: sort keys far beyond any page-sized scratch buffer
 			n := r.Range(850, 1600)
 			p = p[:0]
@@ -776,6 +817,11 @@ func genTrace(prop string, seed uint64, run int, o genOpts) *Trace {
 		}
 	}
 	budget := stepBudget(r, p, o.tier)
+	for _, g := range gts {
+		if g.huge && budget > 40 {
+			budget = r.Range(8, 40) // 64 KiB keys: every step copies and compares a lot
+		}
+	}
 	fanHeavy := p.fanHeavy || r.Chance(1, 4)
 	if budget >= 300 {
 		fanHeavy = fanHeavy || r.Chance(2, 3)
@@ -805,7 +851,11 @@ func genTrace(prop string, seed uint64, run int, o genOpts) *Trace {
 
 	// sweep phase (1 run in 25): one node climbs through every size class to all
 	// 256 children and back down, the only way to reach a full 256-slot node
-	if r.Intn(8) == 0 && o.domain == "main" {
+	anyHuge := false
+	for _, g := range gts {
+		anyHuge = anyHuge || g.huge
+	}
+	if r.Intn(8) == 0 && o.domain == "main" && !anyHuge {
 		// plateau phase: one node is filled to exactly a class capacity (or one
 		// past it), drained in a chosen order to a chosen floor, and the deleted
 		// keys are probed again — node states that only exist after a class was
@@ -902,7 +952,7 @@ func genTrace(prop string, seed uint64, run int, o genOpts) *Trace {
 			budget += len(tr.Steps)
 		}
 	}
-	if r.Intn(25) == 0 || (o.growBias && r.Intn(3) != 0) {
+	if (r.Intn(25) == 0 || (o.growBias && r.Intn(3) != 0)) && !anyHuge {
 		ti := r.Intn(nT)
 		g := gts[ti]
 		if g.kt.Kind != "collation" && g.kt.Kind != "compound" {
@@ -1278,4 +1328,12 @@ func indexOf(s, sub string) int {
 		}
 	}
 	return -1
+}
+
+func bytesOf(r *RNG, n int) []byte {
+	b := make([]byte, n)
+	for i := range b {
+		b[i] = byte('a' + r.Intn(3))
+	}
+	return b
 }
